@@ -145,10 +145,14 @@ def history(draw, regkind='posix', gap=False):
                 states=draw(st.lists(_state, min_size=1, max_size=3)),
                 tag=tag,
             )
+            if not crashable:
+                op['h'] = draw(st.sampled_from([None, 'a', 'a', 'b']))  # through a long-lived release handle
             trains[p] += 1
             lastr[p] = op['r']
         elif kind == 'read':
             op.update(r=draw(st.sampled_from([None, None, 0, 1, 2])), g=draw(st.sampled_from([None, None, 0, 1, 2, 3])))
+            if not crashable:
+                op['h'] = draw(st.sampled_from([None, 'a', 'b']))
         else:
             op.update(r=lastr[p], g=0 if scripted else draw(st.sampled_from([0, 0, 0, 1, 2, 3])))
             trains[p] = 0
@@ -394,15 +398,29 @@ class LocalExec:
         from forml.provider.registry.filesystem import volatile
 
         self.registry = volatile.Registry()
+        self.handles = {}
 
     def publish(self, project, path, crash=None):
         return 'ok', [], W.op_publish(self.registry, project, path)
 
-    def train(self, project, release, states, tagspec, crash=None):
+    def train(self, project, release, states, tagspec, crash=None, handle=None):
+        if handle is not None and release is not None:
+            return 'ok', [], W.op_train_handle(self.handle(project, release, handle), states, tagspec)
         return 'ok', [], W.op_train(self.registry, project, release, states, tagspec)
 
-    def read(self, project, release, generation, nstates):
+    def handle(self, project, release, which):
+        """Long-lived Release level objects ('a', 'b': two live handles on one release)."""
+        from forml.io import asset
+
+        key = (project, release, which)
+        if key not in self.handles:
+            self.handles[key] = asset.Directory(self.registry).get(project).get(release)
+        return self.handles[key]
+
+    def read(self, project, release, generation, nstates, handle=None):
         W.clear_caches()
+        if handle is not None and release is not None:
+            self.handle(project, release, handle).list()  # the handle looks at its release, then the usual read
         return W.op_read(self.registry, project, release, generation, nstates)
 
     def observe(self):
@@ -529,7 +547,11 @@ class History:
             self.classes.add('gap:train-after-prune')
         new = ('gen', p, v, number)
         explicit = None if op['r'] is None else v
-        call = lambda crash: self.ex.train(p, explicit, op['states'], op['tag'], crash)  # noqa: E731
+        if op.get('h') and explicit is not None and not self.ex.crashable:
+            self.classes.add('train:live-handle')
+            call = lambda crash: self.ex.train(p, explicit, op['states'], op['tag'], crash, handle=op['h'])  # noqa: E731
+        else:
+            call = lambda crash: self.ex.train(p, explicit, op['states'], op['tag'], crash)  # noqa: E731
         return self.mutate(i, op, model, after, new, ['op=train'], call, False, (p, v))
 
     def do_read(self, i, op, model):
@@ -548,7 +570,10 @@ class History:
             exp = {'tag': gen['tag'], 'states': gen['states']}
         mode = 'latest' if op['r'] is None and g is None else 'explicit'
         self.classes.add('read:' + mode)
-        got = self.ex.read(p, None if op['r'] is None else v, g, len(exp['states']))
+        if op.get('h') and op['r'] is not None and not self.ex.crashable:
+            got = self.ex.read(p, v, g, len(exp['states']), handle=op['h'])
+        else:
+            got = self.ex.read(p, None if op['r'] is None else v, g, len(exp['states']))
         tags = ['op=read', mode, self.ex.regkind]
         if is_err(got):
             self.fail('read', 'raises:' + got['error'], f'read {p}/{v}/{g}: {got}', tags)
@@ -866,6 +891,40 @@ CANONICAL = [
 ]
 
 
+def _handled(op, which):
+    return {**op, 'h': which}
+
+
+#: two live handles on one release (volatile registry, one process): interleaved commits and looks
+LIVE_HANDLES = [
+    [
+        {'op': 'publish', 'p': 0, 'v': '1.0', 'kind': 'dir'},
+        _handled(_train(0, 0, ['aa01'], 1), 'a'),
+        _handled({'op': 'read', 'p': 0, 'r': 0, 'g': None}, 'b'),
+        _handled(_train(0, 0, ['bb02'], 2), 'a'),
+        _handled(_train(0, 0, ['cc03'], 3), 'b'),
+        {'op': 'read', 'p': 0, 'r': 0, 'g': None},
+    ],
+    [
+        {'op': 'publish', 'p': 0, 'v': '1.0', 'kind': 'zip'},
+        _handled(_train(0, 0, ['aa01'], 1), 'a'),
+        _handled(_train(0, 0, ['bb02'], 2), 'b'),
+        _handled(_train(0, 0, ['cc03'], 3), 'a'),
+        _handled(_train(0, 0, ['dd04'], 4), 'b'),
+        _handled(_train(0, 0, ['ee05'], 5), 'a'),
+        {'op': 'read', 'p': 0, 'r': 0, 'g': 1},
+    ],
+    [
+        {'op': 'publish', 'p': 0, 'v': '1.0', 'kind': 'dir'},
+        _train(0, 0, ['aa01'], 1),
+        _handled({'op': 'read', 'p': 0, 'r': 0, 'g': None}, 'a'),
+        _train(0, None, ['bb02'], 2),
+        _handled(_train(0, 0, ['cc03'], 3), 'a'),
+        _handled(_train(0, 0, ['dd04'], 4), 'a'),
+    ],
+]
+
+
 def campaigns(ctx):
     return [
         Campaign('history', history('posix'), check_history, 70, 12),
@@ -913,6 +972,11 @@ def enumerate_extra(ctx, shard, nshards):
             ctx.campaign = 'volatile'
             check_history(ctx, {'registry': 'volatile', 'ops': [{k: v for k, v in op.items() if k != 'sweep'} for op in ops]})
             ctx.campaign = 'history'
+    if shard == 0:
+        ctx.campaign = 'volatile'
+        for ops in LIVE_HANDLES:
+            check_history(ctx, {'registry': 'volatile', 'ops': ops})
+        ctx.campaign = 'history'
     for name, value in STATS.items():  # summed over the shards by Ctx.merge
         ctx.extra[name] = ctx.extra.get(name, 0) + value
         STATS[name] = 0
